@@ -131,8 +131,15 @@ def custom(prop, tier, seed_value, write_evidence, save_replay, spec):
                 state["fail"] = {"script": sc, "text": text, "variant": v, "violation": r}
                 raise Found(r["kind"])
 
-    test = settings(max_examples=n_examples, database=None, deadline=None, derandomize=False, report_multiple_bugs=False, suppress_health_check=list(HealthCheck),
-                    phases=[Phase.generate, Phase.shrink], verbosity=Verbosity.quiet)(seed(seed_value)(given(script(tier))(body)))
+    def test():
+        # chunks of 100 scripts (each a seeded Hypothesis run of its own) until the time budget or the example count is reached
+        done = k = 0
+        while done < n_examples and time.time() - t0 <= budget:
+            n = min(100, n_examples - done)
+            settings(max_examples=n, database=None, deadline=None, derandomize=False, report_multiple_bugs=False, suppress_health_check=list(HealthCheck),
+                     phases=[Phase.generate, Phase.shrink], verbosity=Verbosity.quiet)(seed(seed_value + k * 7919)(given(script(tier))(body)))()
+            done += n
+            k += 1
     violations = []
     # regression tier
     import glob
